@@ -54,8 +54,11 @@ def make_pp(cfg, out):
     _how[0] += 1
     how = _how[0] % 4
     if how in (0, 1):
+        # `language` is a public constructor argument (the lexer for code cells when the notebook does not name one): a
+        # caller that knows it passes it whether colour is on or off
+        lang = [None, None, "python", "r", "no-such-language"][(_how[0] // 4) % 5]
         return pp.PrettyPrintConfig(out=out, include=inc, color_words=cfg["color_words"], use_git=cfg["use_git"],
-                                    use_diff=cfg["use_diff"], use_color=cfg["use_color"])
+                                    use_diff=cfg["use_diff"], use_color=cfg["use_color"], language=lang)
     c = pp.PrettyPrintConfig() if how == 2 else copy.copy(pp.PrettyPrintConfig(use_color=True, color_words=True))
     c.out = out
     for key, val in cfg["include"].items():
